@@ -450,7 +450,7 @@ func (m *model) Apply(ev string) string {
 		}
 	}
 	m.rp = rp
-	if rp.class != m.exp.class && rp.class != m.exp.alt {
+	if !sameVerdict(rp.class, m.exp.class, m.exp.alt) {
 		m.diverged = true
 	}
 	if capture {
@@ -522,6 +522,19 @@ func rpcOf(ev string) string {
 	return ev
 }
 
+// verdict reduces a response class to answered / refused.
+func verdict(class string) string {
+	if class == "ok" {
+		return "ok"
+	}
+	return "refused"
+}
+
+// sameVerdict reports whether the answer has the verdict of the reference class or of its alternative.
+func sameVerdict(got, class, alt string) bool {
+	return verdict(got) == verdict(class) || alt != "" && verdict(got) == verdict(alt)
+}
+
 func variantOf(ev string) string {
 	if i := strings.Index(ev, ":"); i >= 0 {
 		return ev[i+1:]
@@ -547,10 +560,22 @@ func (m *model) Check(ev, res string) []common.Violation {
 		add("C16.no-panic", "C16.panic/"+rpc, fmt.Sprintf("%s panicked: %s", ev, rp.panicked))
 		return out
 	}
-	// 1. response class agrees with the reference
-	if rp.class != e.class && rp.class != e.alt {
-		add("C16.response-class", fmt.Sprintf("C16.response-class-differs/%s/%s->%s", rpc, e.class, rp.class),
+	// 1. the verdict (answered / refused) agrees with the reference. WHICH error a refusal carries is not part of
+	// the property: a different error class is counted, not flagged.
+	if (e.class == "throttle" || rp.class == "throttle") && rp.class != e.class {
+		// throttling is a rate limiter outside the property: when the node throttles where the mirror did not expect it
+		// (or the other way round) the reference can no longer predict this path; it is counted and not extended
+		m.counters["throttle-prediction-differs/"+rpc]++
+		m.diverged = true
+	} else if e.guarded && rp.class != "ok" && !sameVerdict(rp.class, e.class, e.alt) {
+		// a guarded read that the reference would answer was refused: the property only says to whom data may be
+		// returned, not that it must be
+		m.counters["guarded-read-refused-although-authorised/"+rpc]++
+	} else if !sameVerdict(rp.class, e.class, e.alt) {
+		add("C16.response-class", fmt.Sprintf("C16.response-class-differs/%s/%s->%s", rpc, verdict(e.class), verdict(rp.class)),
 			fmt.Sprintf("%s answered %q (%s), the reference says %q", ev, rp.class, rp.errText, e.class))
+	} else if rp.class != e.class && rp.class != e.alt {
+		m.counters["refusal-class-differs/"+rpc+"/"+e.class+"->"+rp.class]++
 	}
 	// 2. awaiting lists (read from the cache directly) agree with the reference
 	for _, a := range []string{"A", "B"} {
@@ -664,7 +689,9 @@ func (m *model) Check(ev, res string) []common.Violation {
 	}
 	sort.Strings(th)
 	if strings.Join(th, " ") != strings.Join(m.post.flash, " ") {
-		add("C16.throttle-mirror", "C16.throttle-set-differs/"+rpc, fmt.Sprintf("after %s the flashback memory holds %v, the mirror says %v", ev, m.post.flash, th))
+		// not a property violation: the path is no longer extended (the reference's throttle predictions would be off)
+		m.counters["harness/throttle-mirror-differs/"+rpc]++
+		m.diverged = true
 	}
 	return out
 }
